@@ -907,6 +907,47 @@ class ExprMixin:
         arrs = [z3.Lambda([i], t) for t in terms]
         return VSeq(elem, arrs, seq.length, mutable)
 
+    def for_arbitrary_element(self, st: "VSet", target, env, body, base="x!q"):
+        """As for_arbitrary_index, for a comprehension over a symbolic SET: the element expression is evaluated once for an
+        arbitrary member x.  Returns (x, body result, terms)."""
+        es = flat_sorts(st.elem)[0]
+        x = z3.Const(self.fresh_name(base), es)
+        e2 = Env(env)
+        self.pure_mode += 1
+        names0 = dict(self.names)
+        heap0 = {k: list(v) for k, v in self.heap.items()}
+        hv0 = self.ghost.get("heap_version")
+        nev0 = len(self.events)
+        pcn = len(self.pc)
+        ndec = len(self.decisions)
+        try:
+            self.pc.append(z3.Select(st.arr, x))
+            self.bind_target(target, unpack(st.elem, [x]), e2)
+            res = body(e2)
+            terms = list(res[1])
+            delta = self.pc[pcn + 1:]
+            if len(self.decisions) != ndec:
+                raise OutOfSubset("fork inside the element expression of a comprehension over a symbolic set")
+        finally:
+            del self.pc[pcn:]
+            self.pure_mode -= 1
+        if delta:
+            hv1 = self.ghost.get("heap_version")
+            if len(self.events) != nev0 or (hv0 is None) != (hv1 is None) or (hv0 is not None and not hv0.eq(hv1)) or any(
+                    k in heap0 and (len(heap0[k]) != len(v) or not all(a.eq(b) for a, b in zip(heap0[k], v))) for k, v in self.heap.items()):
+                raise OutOfSubset("element expression of a symbolic comprehension has side effects")
+            created = set()
+            for nm, cnt in self.names.items():
+                for k in range(names0.get(nm, 0), cnt):
+                    created.add(f"{nm}#{k}" if k else nm)
+            subst = self._skolemise_over(created, [*delta, *terms], x)
+            if subst:
+                delta = [z3.substitute(d, *subst) for d in delta]
+                terms = [z3.substitute(t, *subst) for t in terms]
+            self.pc.append(z3.ForAll([x], z3.Implies(z3.Select(st.arr, x), z3.And(delta))))
+            self.assumptions_used.add("postconditions of the functions called in the element expression of a comprehension over a symbolic set hold for every member (element evaluated once for an arbitrary member; per-element symbols Skolemised)")
+        return x, res, terms
+
     def for_arbitrary_index(self, seq, target, env, body, base="i!q"):
         """Evaluate `body(env with target bound to seq[i])` once, for an arbitrary index i of a symbolic sequence, without
         forking.  body returns (anything, [z3 terms]).  Facts learnt during the evaluation (postconditions of called
@@ -971,7 +1012,7 @@ class ExprMixin:
         for nm, c in found.items():
             if c.eq(i):
                 continue
-            f = z3.Function(nm + "!sk", z3.IntSort(), c.sort())
+            f = z3.Function(nm + "!sk", i.sort(), c.sort())
             out.append((c, f(i)))
         return out
 
